@@ -274,7 +274,9 @@ def check_faults(ctx, index):
         for cut in cuts:
             storage.write_ods_raw(path, xml[:cut])
             expect_format_error(ctx, {"fault": "content-xml-cut", "at": cut}, path, 1, "content-xml-cut")
-        for junk in (b"<a><b></a>", b"\xff\xfe\x00", b"<?xml version='1.0'?>", b"&amp;"):
+        for junk in (b"<a><b></a>", b"\xff\xfe\x00", b"<?xml version='1.0'?>", b"&amp;",
+                     # a declaration that names no character encoding at all (unknown, or a codec that is none)
+                     b"<?xml version='1.0' encoding='UTF-99'?><a/>", b"<?xml version='1.0' encoding='hex'?><a/>", b"<?xml version='1.0' encoding='rot13'?><a/>"):
             storage.write_ods_raw(path, junk)
             expect_format_error(ctx, {"fault": "content-xml-malformed", "bytes": repr(junk)}, path, 1, "content-xml-malformed")
     else:
